@@ -636,6 +636,63 @@ def rule_timestamp(ctx) -> None:
         chk.decide(cex is None and bool(gs), "C04.timestamp-twin", fn.qual + " range", "accepts exactly the 64-bit unsigned range of the header item", f"{cex}", "", A.loc(MISC, fn.node))
 
 
+def rule_timestamp_model(ctx) -> None:
+    """C04.timestamp-model: pack_timestamp / unpack_timestamp interpreted with `datetime` modelled as a number of seconds (a datetime object
+    is its POSIX time; `datetime(2000, 1, 1, tzinfo=utc)` is 946684800): the header value counts microseconds since 2000-01-01 UTC
+    (0 at the epoch, 1 000 000 a second later) and unpack(pack(t)) = t for times on exactly representable fractions of a second."""
+    EPOCH = 946684800
+    pk = ctx.func(MISC, "pack_timestamp")
+    up = ctx.func(MISC, "unpack_timestamp")
+    Obj = ordereval.Obj
+
+    def leaves(c: ast.Call, ev):
+        f = norm(c.func)
+        if f == "datetime" and len(c.args) >= 3:
+            a = [ev.ev(x) for x in c.args]
+            if a[:3] == [2000, 1, 1] and all(v == 0 for v in a[3:]) and any(k.arg == "tzinfo" and norm(k.value) in ("timezone.utc", "datetime.timezone.utc", "UTC") for k in c.keywords):
+                return Obj(_ts=float(EPOCH))
+            return ordereval.NOT_MODELLED
+        if f == "datetime.fromtimestamp" and len(c.args) == 1 and not c.keywords:
+            v = ev.ev(c.args[0])
+            return Obj(_ts=float(v)) if isinstance(v, (int, float)) else ordereval.NOT_MODELLED
+        if isinstance(c.func, ast.Attribute) and c.func.attr == "timestamp" and not c.args:
+            try:
+                o = ev.ev(c.func.value)
+            except ordereval.Unsupported:
+                return ordereval.NOT_MODELLED
+            if isinstance(o, Obj) and "_ts" in o.__dict__:
+                return o.__dict__["_ts"]
+        if f == "isinstance" and len(c.args) == 2 and norm(c.args[1]) == "datetime":
+            v = ev.ev(c.args[0])
+            return isinstance(v, Obj) and "_ts" in v.__dict__
+        if f == "int" and len(c.args) == 1:
+            v = ev.ev(c.args[0])
+            if isinstance(v, (int, float)):
+                return int(v)
+        return ordereval.NOT_MODELLED
+
+    def run(fn, arg):
+        try:
+            return ordereval.Evaluator({fn.params()[0]: arg}, ctx.fold_sym(fn), opaque_return=False, call_value=ctx.model_calls(leaves, module=MISC)).run(A.body_of(fn.node))
+        except ordereval.Unsupported as ex:
+            raise AnalysisError(f"C04.timestamp-model: {fn.qual} left the fragment: {ex}")
+    probs = []
+    n = 0
+    for dt, want in ((0, 0), (1, 1000000), (0.5, 500000), (86400, 86400000000), (800000000.25, 800000000250000)):
+        o = run(pk, Obj(_ts=float(EPOCH) + dt))
+        n += 1
+        if o.kind != "return" or o.value != want:
+            probs.append(f"pack_timestamp(2000-01-01 + {dt} s) = {o.value!r} ({o.kind}), expected {want} microseconds")
+            continue
+        b = run(up, o.value)
+        if b.kind != "return" or not isinstance(b.value, Obj) or b.value.__dict__.get("_ts") != float(EPOCH) + dt:
+            probs.append(f"unpack_timestamp({want}) is {getattr(b.value, '_ts', b.value)!r} s ({b.kind}), expected {EPOCH + dt}")
+    o = run(pk, Obj(_ts=float(EPOCH) - 1))
+    if o.kind != "raise":
+        probs.append(f"a time before 2000-01-01 is packed as {o.value!r} (an unsigned field)")
+    ctx.chk.decide(not probs, "C04.timestamp-model", f"{MISC}::pack_timestamp/unpack_timestamp", f"microseconds since 2000-01-01 UTC, unpack inverts pack ({n} model times)", "; ".join(probs[:2])[:500], "", A.loc(MISC, pk.node))
+
+
 def rule_wire(ctx) -> None:
     wire.check_pair(ctx, "C04.wire", HDR, "ImageHeaderV2", "export", "parse")
     wire.check_pair(ctx, "C04.wire", CMD, "CmdHeader", "_raw_data", "parse")
@@ -658,6 +715,7 @@ def run(ctx) -> None:
                     "counter advance is compared between export and parse as a function of the stored HMAC count; section loops, signed range, key-blob and timestamp twins; "
                     "setter guards decided against the header item widths; memory-id bit placement by bit provenance.")
     ctx.rule(rule_wire)
+    ctx.rule(rule_timestamp_model)
     ctx.rule(rule_routes)
     ctx.rule(rule_image_routes)
     ctx.rule(rule_fill_word)
